@@ -35,6 +35,7 @@ func init() {
 				srv.Write([]byte(l + "\r\n"))
 			}
 			var reqs []string
+			var tagged string
 			acked := map[string]bool{}
 			deadline := time.Now().Add(4 * time.Second)
 			done := false
@@ -71,9 +72,19 @@ func init() {
 				case l == "CAP END":
 					write(":srv 001 me :Welcome")
 					write("PING :sync")
+				case strings.HasPrefix(l, "PONG sync"):
+					// registered: the application sends an event that carries client tags
+					cl.Cmd.SendRaw("@+example/round=" + fmt.Sprint(ri) + " PRIVMSG #c :tagged on connection " + fmt.Sprint(ri))
+					write("PING :after")
+				case strings.Contains(l, "PRIVMSG #c :tagged on connection"):
+					tagged = l
 				case strings.HasPrefix(l, "PONG"):
 					done = true
 				}
+			}
+			if tagged != "" && strings.HasPrefix(tagged, "@") != acked["message-tags"] {
+				c.R.Violation("c08.tags_on_wire_reconnect", hin, fmt.Sprintf("connection %d: %q", ri, tagged), fmt.Sprintf("message-tags acknowledged on this connection: %v", acked["message-tags"]),
+					"message tags go on the wire exactly when message-tags was acknowledged on THIS connection")
 			}
 			// judge this round on the real client's own lines and getters
 			for _, t := range reqs {
